@@ -24,9 +24,11 @@ CON = M.CLS["Connectivity"]
 PAIRS = [(0, 1), (0, 2), (0, 3), (1, 2), (1, 3), (2, 3)]
 
 
-def graph(V, n=4, symbolic_types=False):
-    """every labelled simple graph on n atoms: each possible edge present or not"""
-    edges = [p for p in PAIRS if V.choose([False, True], f"edge{p[0]}{p[1]}")]
+def graph(V, n=None, symbolic_types=False):
+    """every labelled simple graph on n atoms (4; 5 in the thorough tier): each possible edge present or not"""
+    n = n or (5 if V.tier == "thorough" else 4)
+    pairs = PAIRS if n == 4 else list(itertools.combinations(range(n), 2))
+    edges = [p for p in pairs if V.choose([False, True], f"edge{p[0]}{p[1]}")]
     m = M.mk_mol(V, "Molecule", n, tuple(edges), name="g", full=symbolic_types)
     return m, edges
 
@@ -60,7 +62,7 @@ def _bfs(V):
     I, st = V.I, V.st
     m, edges = graph(V)
     atoms = m.fields["_atoms"].items
-    start = V.choose([0, 1, 2, 3], "start")
+    start = V.choose(list(range(len(atoms))), "start")
     nbrs = sorted({q if p == start else p for p, q in edges if start in (p, q)})
     direction = V.choose([None] + nbrs, "direction")
     V.witness(lambda ev: {"op": "bfs", "edges": edges, "start": start, "direction": direction, "signature": "bfs"})
@@ -74,7 +76,7 @@ def _bfs(V):
         V.ensure("bfs/terminates-without-exception", z3.BoolVal(False))
         return
     V.ensure("bfs/terminates-without-exception", z3.BoolVal(True))
-    ref = ref_bfs(4, edges, start, direction)
+    ref = ref_bfs(len(atoms), edges, start, direction)
     V.ensure("bfs/yields-exactly-the-reachable-atoms-once-each", z3.BoolVal(sorted(a for a, _ in got) == sorted(ref) and len({a for a, _ in got}) == len(got)))
     V.ensure("bfs/labels-are-the-true-shortest-distances", z3.BoolVal(all(ref.get(a) == d for a, d in got)))
     V.ensure("bfs/non-decreasing-distance", z3.BoolVal(all(x[1] <= y[1] for x, y in zip(got, got[1:]))))
@@ -150,7 +152,7 @@ def _ring(V):
     out = V.method(m, "is_bond_in_ring", [b], qual=f"{CON}.is_bond_in_ring")
     p, q = edges[k]
     rest = [e for j, e in enumerate(edges) if j != k]
-    still = q in ref_bfs(4, rest, p)        # endpoints still connected without the bond <=> the bond is not a bridge
+    still = q in ref_bfs(len(m.fields["_atoms"].items), rest, p)        # endpoints still connected without the bond <=> the bond is not a bridge
     V.ensure("ring/reported-in-a-ring-iff-not-a-bridge", z3.BoolVal(out.returned and out.value is still))
 
 
